@@ -231,7 +231,7 @@ func genAction(c *sim.Ctx, cfg genCfg, names []string, guard bool) *ref.Action {
 			}
 		case k == 12:
 			if cfg.failOps {
-				a.Ops = append(a.Ops, ref.Op{Kind: []string{"retbad", "retbad", "retarr", "retfn", "retdate", "retgetter"}[c.Intn(6, "badkind")]})
+				a.Ops = append(a.Ops, ref.Op{Kind: []string{"retbad", "retbad", "retarr", "retfn", "retdate", "retgetter", "retcyclic", "throwbare", "throwhostile"}[c.Intn(9, "badkind")]})
 			}
 		case k == 13:
 			if cfg.failOps && !a.Native {
@@ -457,6 +457,15 @@ func renderJS(a *ref.Action) string {
 			}
 		case "retdate":
 			sb.WriteString("return new Date(0);\n")
+		case "retcyclic":
+			// a value that contains itself
+			sb.WriteString("var cyc = [1]; cyc.push(cyc); return cyc;\n")
+		case "throwbare":
+			// a thrown object without a prototype (nothing to turn it into a string with)
+			sb.WriteString("throw Object.create(null);\n")
+		case "throwhostile":
+			// a thrown object whose conversion to a string fails itself
+			sb.WriteString("throw {toString: function() { throw 1; }};\n")
 		case "retgetter":
 			// an object whose property fails when the interpreter reads the result
 			sb.WriteString("return {get a() { throw new Error(\"getter\"); }};\n")
@@ -562,7 +571,7 @@ func nativeAction(a *ref.Action) *core.FuncAction {
 				}
 			case "throw":
 				return nil, errors.New("boom")
-			case "retbad", "retarr", "retfn", "retdate", "retgetter":
+			case "retbad", "retarr", "retfn", "retdate", "retgetter", "retcyclic", "throwbare", "throwhostile":
 				return nil, fmt.Errorf("42 (int64) isn't Bindings")
 			case "retnull":
 				return exe, nil
